@@ -1,4 +1,5 @@
 //@@ UNIT CONVNODE
+//@@ RLIMIT 40
 // Unit CONVNODE — src/generate/convert/mod.rs::{convert_node, append_ret, append_assign, skip_assign,
 // skip_return}, common.rs::convert_vec, CoreOp::try_from.  Bodies copied verbatim from /repo on every run.
 // convert_def / convert_cntrl_flow / convert_call / convert_class / convert_builder / convert_handle /
